@@ -48,9 +48,8 @@ Proof. exact @stream_accept_iff. Qed.
 
 (* TLS 1.3: an accepted application_data record is the sealing, under the nonce of the receiver's
    next sequence number and the header as additional data, of content ++ [type] ++ zero padding.
-   (_partial: only "->"; "<-" is Props/C01.v unprotect_protect_tls13 for the amount of padding tlslite
-   chooses, other amounts: correspondence only) *)
-Theorem accept_iff_image_tls13_partial : forall (CS : Type) (P : Prim CS) (R : CS -> CS -> Prop) (c : Cfg)
+   (covers every inner type, incl. an encrypted change_cipher_spec that only a peer with the keys can make) *)
+Theorem accept_image_tls13 : forall (CS : Type) (P : Prim CS) (R : CS -> CS -> Prop) (c : Cfg)
     (s r r' : St CS) (hver : Z * Z) (body : list Z) (ty : Z) (data : list Z),
   mode_ok P R MTls13 c -> aead_tight P -> sync R s r ->
   unprotect c P r (23, hver, body) = ROk (r', (ty, data)) ->
@@ -60,6 +59,18 @@ Theorem accept_iff_image_tls13_partial : forall (CS : Type) (P : Prim CS) (R : C
     body = pr_seal P nonce (data ++ [ty] ++ zeros k) (aad13 23 (3, 3) (zlen body)) /\
     sync R {| st_cs := st_cs s; st_seq := st_seq s + 1 |} r' /\ st_seq r' = st_seq r + 1.
 Proof. exact @tls13_accept. Qed.
+
+(* TLS 1.3, application_data / 3.3 header, inner type other than change_cipher_spec: full iff, for every
+   amount of zero padding within the receive limit *)
+Theorem accept_iff_image_tls13 : forall (CS : Type) (P : Prim CS) (R : CS -> CS -> Prop) (c : Cfg)
+    (s r : St CS) (body : list Z) (ty : Z) (data : list Z),
+  mode_ok P R MTls13 c -> aead_tight P -> sync R s r -> ty <> 20 -> zlen body < 65536 ->
+  ((exists r', unprotect c P r (23, (3, 3), body) = ROk (r', (ty, data))) <->
+   (ty <> 0 /\ zlen data <= c_recv_limit c /\ st_seq s < 18446744073709551616 /\
+    exists k s', 0 <= k /\ zlen data + 1 + k <= c_recv_limit c + 1 /\
+      protect_with c P s (ty, data) {| ch_pad := []; ch_ivb := []; ch_nonce := []; ch_zeros := k |} (3, 3)
+        = ROk (s', (23, (3, 3), body)))).
+Proof. exact @accept_iff_image_tls13_l. Qed.
 
 (* the bytes under the MAC determine sequence number, content type and payload *)
 Theorem mac_input_binds : forall (c : Cfg) n1 ty1 d1 n2 ty2 d2,
